@@ -147,9 +147,12 @@ class Contract:
         self.raises: list[tuple[str, ast.expr, bool]] = []  # (class, when, exact)
         self.raise_messages: dict[str, ast.expr] = {}
         self.ghosts: list[tuple[str, ast.expr]] = []
+        self.pre_items: list = []  # requires and ghost definitions in source order (native evaluation)
         self.loops: dict[int, LoopContract] = {}
         self.local_kinds: dict[str, Kind] = {}
         self.trusted = False
+        self.no_native = None
+        self.uses: list[str] = []
         self.trusted_reason = ""
         self.generator = False
         self.vararg = None
@@ -181,6 +184,7 @@ class Contract:
                 kw = {k.arg: k.value for k in c.keywords}
                 if f == "requires":
                     self.requires.append(c.args[0])
+                    self.pre_items.append(("requires", None, c.args[0]))
                 elif f == "ensures":
                     self.ensures.append(c.args[0])
                 elif f in ("raises", "may_raise"):
@@ -194,6 +198,10 @@ class Contract:
                 elif f == "trusted":
                     self.trusted = True
                     self.trusted_reason = c.args[0].value if c.args else ""
+                elif f == "use_lemma":
+                    self.uses.extend(x.value for x in c.args)
+                elif f == "no_native":
+                    self.no_native = c.args[0].value if c.args else "no native stand-in"
                 elif f == "generator":
                     self.generator = True
                 elif f == "properties":
@@ -209,6 +217,7 @@ class Contract:
                     raise Unsupported(f"{self.fid}: unknown contract clause {f}")
             elif isinstance(st, ast.Assign) and len(st.targets) == 1 and isinstance(st.targets[0], ast.Name):
                 self.ghosts.append((st.targets[0].id, st.value))
+                self.pre_items.append(("ghost", st.targets[0].id, st.value))
             elif isinstance(st, ast.FunctionDef):
                 self._parse_loop(st)
             elif isinstance(st, ast.Pass):
@@ -311,6 +320,26 @@ class Contract:
         env2 = {**genv, "result": res}
         for e in self.ensures:
             normal = normal.assume(eng.eval_contract_expr(e, normal, env2, where="ensures", only_env=True))
+        # frame: parameters the callee mutates are rebound in the caller to their declared new value
+        for pname, expr in self.mutates.items():
+            newv = eng.eval_contract_value(expr, normal, env2)
+            idx = [p[0] for p in self.params].index(pname)
+            argexpr = None
+            if node is not None:
+                off = 1 if (isinstance(node.func, ast.Attribute) and self.params and self.params[0][0] == "self"
+                            and len(pos) == len(node.args) + 1) else 0
+                if idx - off >= 0 and idx - off < len(node.args):
+                    argexpr = node.args[idx - off]
+                elif idx == 0 and off == 1:
+                    argexpr = node.func.value
+                else:
+                    for k in node.keywords:
+                        if k.arg == pname:
+                            argexpr = k.value
+            path = eng._lvalue_path(argexpr) if argexpr is not None else None
+            if path is None:
+                raise Unsupported(f"{self.fid}: mutated argument {pname} is not a plain variable at the call site")
+            normal = eng._write_path(normal, path, newv)
         if eng.feasible(normal):
             outs.append((normal, res))
         return outs
@@ -329,6 +358,11 @@ class SpecFunction:
             isinstance(s, ast.Expr) and isinstance(s.value, ast.Call)
             and getattr(s.value.func, "id", "") == "uninterpreted" for s in node.body
         )
+        # non-recursive specs are macros: expanded at each use (so they may contain quantifiers)
+        self.macro = (not self.uninterpreted
+                      and not any(isinstance(n, ast.Call) and getattr(n.func, "id", "") == name for n in ast.walk(node))
+                      and any(isinstance(n, ast.Call) and getattr(n.func, "id", "") in ("exists", "forall", "forall_str")
+                              for n in ast.walk(node)))
 
     def decl(self):
         if self.fn is None:
@@ -364,6 +398,30 @@ class SpecFunction:
 
     def value(self, eng):
         spec = self
+        if self.macro:
+            def expand(eng2, st, pos, kw):
+                args = {}
+                for (n, k), v in zip(spec.params, pos):
+                    if not fits(v, k) and isinstance(v, UnionV):
+                        cand = [a for _, a in v.alts if fits(a, k)]
+                        if len(cand) == 1:
+                            v = cand[0]
+                    if not fits(v, k):
+                        raise Unsupported(f"spec {spec.name}: arg {n} kind {v.kind!r} vs {k!r}")
+                    args[n] = v
+                old_mode, eng2.spec_mode = eng2.spec_mode, True
+                try:
+                    inner = State(args, st.pc, st.ghost)
+                    outs = []
+                    for oc in eng2.exec_block(spec.node.body, inner):
+                        if oc.kind != "return":
+                            raise Unsupported(f"spec {spec.name}: path without return ({oc.kind})")
+                        outs.append((State(st.vars, oc.state.pc, st.ghost), oc.value))
+                    return outs
+                finally:
+                    eng2.spec_mode = old_mode
+
+            return FuncV(expand, self.name)
 
         def call(eng2, st, pos, kw):
             spec.define(eng2)
@@ -383,11 +441,15 @@ class SpecFunction:
 
 
 class Lemma:
-    def __init__(self, name, node, registry, kenv):
+    """@lemma / @lemma(induct="s") : proved once (base + step for string/sequence/int induction),
+    then usable in contracts through use_lemma("name") as a universally quantified hypothesis."""
+
+    def __init__(self, name, node, registry, kenv, induct=None):
         self.name, self.node = name, node
         self.params = [(a.arg, parse_kind(a.annotation, kenv)) for a in node.args.args]
-        self.requires, self.ensures, self.induct = [], [], None
+        self.requires, self.ensures, self.induct = [], [], induct
         self.properties = []
+        self.uses = []
         for st in node.body:
             if isinstance(st, ast.Expr) and isinstance(st.value, ast.Call):
                 f = getattr(st.value.func, "id", "")
@@ -397,6 +459,8 @@ class Lemma:
                     self.ensures.append(st.value.args[0])
                 elif f == "properties":
                     self.properties = [x.value for x in st.value.args]
+                elif f == "use_lemma":
+                    self.uses.extend(x.value for x in st.value.args)
 
 
 # ------------------------------------------------------------------ registry
@@ -459,6 +523,16 @@ class Registry:
             c = self.by_object.get(id(obj.__wrapped__))
         return c
 
+    def _declare_field(self, kname, attr, fk):
+        """Field of an opaque reference kind = uninterpreted function Ref -> field sort."""
+        kind = KOpaque(kname)
+
+        def getter(eng, st, v, fn_name=f"{kname}_{attr}", fk=fk, kind=kind):
+            f = z3.Function(fn_name, kind.sort(), fk.sort())
+            return unbox(f(v.t), fk)
+
+        self.hooks[("field", kname, attr)] = getter
+
     # loading
     def load_sidecar(self, path: str):
         with open(path, encoding="utf-8") as f:
@@ -476,6 +550,10 @@ class Registry:
                         kenv[n] = parse_kind(st.value, kenv)
                     except Unsupported:
                         pass
+            elif isinstance(st, ast.Expr) and isinstance(st.value, ast.Call) and getattr(st.value.func, "id", "") == "declare_fields":
+                kname = st.value.args[0].value
+                for k in st.value.keywords:
+                    self._declare_field(kname, k.arg, parse_kind(k.value, kenv))
             elif isinstance(st, ast.FunctionDef) and st.decorator_list:
                 d = st.decorator_list[0]
                 dname = d.func.id if isinstance(d, ast.Call) else getattr(d, "id", "")
@@ -490,11 +568,19 @@ class Registry:
                 elif dname == "spec":
                     self.specs[st.name] = SpecFunction(st.name, st, self, kenv)
                 elif dname == "lemma":
-                    self.lemmas[st.name] = Lemma(st.name, st, self, kenv)
+                    ind = None
+                    if isinstance(d, ast.Call):
+                        for k in d.keywords:
+                            if k.arg == "induct":
+                                ind = k.value.value
+                    self.lemmas[st.name] = Lemma(st.name, st, self, kenv, ind)
 
     def link(self):
         """Associate contracts with the real function objects (for call-site lookup)."""
         for c in self.contracts.values():
+            if "." in c.qualname and "<locals>" not in c.qualname:
+                cls, meth = c.qualname.rsplit(".", 1)
+                self.methods[(cls, meth)] = c
             try:
                 if c.module.startswith("pyxform"):
                     m = extract.import_module(c.module)
@@ -569,14 +655,32 @@ def _cf_ite(eng, st, pos, kw):
     return [(st, unbox(z3.If(t, box(a, a.kind), box(b, a.kind)), a.kind))]
 
 
+def named_language(name: str, how: str = "match"):
+    """XmlName | NCName | QName | XmlChars | dotted path of a compiled pattern in /repo."""
+    from . import regexinc
+
+    if name == "XmlName":
+        return regexinc.xml_name()
+    if name == "NCName":
+        return regexinc.xml_name(ncname=True)
+    if name == "QName":
+        return regexinc.xml_qname()
+    if name == "XmlChars":
+        return regexinc.xml_chars()
+    mod, _, attr = name.rpartition(".")
+    m = extract.import_module(mod)
+    return regexinc.match_language(getattr(m, attr), how)
+
+
 def _cf_in_re(eng, st, pos, kw):
-    """matches(s, NAME): s is in the regular language registered under NAME."""
-    s, name = pos
-    n = z3.simplify(name.t).as_string()
-    r = eng.registry.hooks.get(("regex", n))
-    if r is None:
-        raise Unsupported(f"unknown regular language {n}")
-    return [(st, BoolV(z3.InRe(s.t, r)))]
+    """matches(s, NAME[, how]): s is in the named regular language (see named_language)."""
+    s = pos[0]
+    n = z3.simplify(pos[1].t).as_string()
+    how = z3.simplify(pos[2].t).as_string() if len(pos) > 2 else "match"
+    if isinstance(s, UnionV):
+        cand = [a for _, a in s.alts if isinstance(a, StrV)]
+        s = cand[0]
+    return [(st, BoolV(z3.InRe(s.t, named_language(n, how))))]
 
 
 def _cf_strip(eng, st, pos, kw):
@@ -588,7 +692,30 @@ def _cf_re_sub(eng, st, pos, kw):
     return [(st, StrV(bm.re_sub_fn(pat)(pos[1].t, pos[2].t)))]
 
 
+def _cf_keys(eng, st, pos, kw):
+    d = pos[0]
+    if isinstance(d, DictV):
+        return [(st, ListV(d.kk, d.keys))]
+    raise Unsupported("keys() of non-dict")
+
+
+def _cf_translate(eng, st, pos, kw):
+    """translate_table(s, "pkg.mod.TABLE"): str.translate with the real table constant of /repo."""
+    name = z3.simplify(pos[1].t).as_string()
+    mod, _, attr = name.rpartition(".")
+    table = getattr(extract.import_module(mod), attr)
+    return [(st, StrV(bm.translate_fn(table)(pos[0].t)))]
+
+
+def _cf_writer_append(eng, st, pos, kw):
+    w, text = pos
+    return [(st, w.with_field("buf", StrV(z3.Concat(w.fields["buf"].t, text.t))))]
+
+
 CONTRACT_FUNCS = {
+    "Writer_append": FuncV(_cf_writer_append, "Writer_append"),
+    "translate_table": FuncV(_cf_translate, "translate_table"),
+    "keys": FuncV(_cf_keys, "keys"),
     "strip": FuncV(_cf_strip, "strip"),
     "re_sub": FuncV(_cf_re_sub, "re_sub"),
     "implies": FuncV(_cf_implies, "implies"),
@@ -726,6 +853,8 @@ class Verifier(Engine):
             st = st.assume(self.eval_contract_expr(r, st, {**env, **genv}, only_env=True))
         ob = self.oblige("cover", "requires", st, z3.BoolVal(False), ex.lineno, expect="sat")
         ob.inputs = inputs
+        for u in c.uses:
+            st = st.assume(self.lemma_axiom(u))
         if any(isinstance(n, (ast.Yield, ast.YieldFrom)) for n in ast.walk(fn)):
             st.ghost["yield"] = []
         first = len(self.obligations)
@@ -769,7 +898,10 @@ class Verifier(Engine):
                 w = self.eval_contract_expr(when, st, {**env, **genv}, only_env=True)
                 self.oblige("raises", f"must-raise-{cls}", st, simp(z3.Not(w)), ex.lineno)
         for pname, expr in c.mutates.items():
-            pass
+            vars_ = {**cur, **{n: v for n, v in env.items()}, **genv, "result": res}
+            want = self.eval_contract_value(expr, st, vars_)
+            got = cur.get(pname)
+            self.oblige("frame", f"mutates-{pname}", st, simp(self.eq(got, want)), ex.lineno)
 
     def _check_raise(self, c, st, rv: RaiseV, env, genv, ex):
         rc = bm.exc_class_of(self, rv.cls)
@@ -797,15 +929,63 @@ class Verifier(Engine):
                         info={"exception": rv.cls, "origin": rv.origin})
 
     # ------------------------------------------------------------- lemmas
+    def lemma_formula(self, lem: Lemma, env):
+        st = State(env)
+        req = And(*[self.eval_contract_expr(r, st, env, only_env=True) for r in lem.requires])
+        ens = And(*[self.eval_contract_expr(e, st, env, only_env=True) for e in lem.ensures])
+        return req, ens
+
+    def lemma_axiom(self, name):
+        """forall params. requires => ensures  (only for lemmas; their proof is a separate obligation set)."""
+        lem = self.registry.lemmas.get(name)
+        if lem is None:
+            raise ContractMismatch(f"unknown lemma {name}")
+        vars_ = [z3.FreshConst(k.sort(), f"lm_{n}") for n, k in lem.params]
+        env = {n: unbox(v, k) for (n, k), v in zip(lem.params, vars_)}
+        req, ens = self.lemma_formula(lem, env)
+        body = z3.Implies(req, ens)
+        pats = getattr(lem, "patterns", None)
+        return z3.ForAll(vars_, body)
+
     def prove_lemma(self, lem: Lemma):
         self.cur_fn = f"lemma.{lem.name}"
         self.contract = None
-        env = {n: named(k, f"l_{n}") for n, k in lem.params}
-        st = State(env)
         self.old_env = {}
-        for r in lem.requires:
-            st = st.assume(self.eval_contract_expr(r, st, env, only_env=True))
-        self.oblige("cover", "requires", st, z3.BoolVal(False), lem.node.lineno, expect="sat")
-        for k, e in enumerate(lem.ensures):
-            ob = self.oblige("lemma", f"ensures{k}", st, self.eval_contract_expr(e, st, env, only_env=True), lem.node.lineno)
-            ob.inputs = {n: (box(v, k2), k2) for (n, k2), v in zip(lem.params, env.values())}
+        env = {n: named(k, f"l_{n}") for n, k in lem.params}
+        inputs = {n: (box(v, k), k) for (n, k), v in zip(lem.params, env.values())}
+        req, ens = self.lemma_formula(lem, env)
+        base_st = State(env)
+        for u in lem.uses:
+            base_st = base_st.assume(self.lemma_axiom(u))
+        st = base_st.assume(req)
+        ob = self.oblige("cover", "requires", st, z3.BoolVal(False), lem.node.lineno, expect="sat")
+        ob.inputs = inputs
+        if lem.induct is None:
+            ob = self.oblige("lemma", "ensures", st, ens, lem.node.lineno)
+            ob.inputs = inputs
+            return
+        # structural induction on a str / list parameter (tail) or an int parameter (n-1)
+        iv = env[lem.induct]
+        if isinstance(iv, (StrV, ListV)):
+            is_base = z3.Length(iv.t) == 0
+            if isinstance(iv, StrV):
+                smaller = StrV(z3.SubString(iv.t, 1, z3.Length(iv.t) - 1))
+            else:
+                smaller = ListV(iv.elem, z3.SubSeq(iv.t, 1, z3.Length(iv.t) - 1))
+        elif isinstance(iv, IntV):
+            is_base = iv.t <= 0
+            smaller = IntV(iv.t - 1)
+        else:
+            raise Unsupported(f"induction on {type(iv).__name__}")
+        ob = self.oblige("lemma-base", "ensures", st.assume(is_base), ens, lem.node.lineno)
+        ob.inputs = inputs
+        env2 = {**env, lem.induct: smaller}
+        # induction hypothesis generalised over the other parameters
+        others = [(n, k) for n, k in lem.params if n != lem.induct]
+        ovars = [z3.FreshConst(k.sort(), f"ih_{n}") for n, k in others]
+        env_ih = {**{n: unbox(v, k) for (n, k), v in zip(others, ovars)}, lem.induct: smaller}
+        req2, ens2 = self.lemma_formula(lem, env_ih)
+        ih = z3.ForAll(ovars, z3.Implies(req2, ens2)) if ovars else z3.Implies(req2, ens2)
+        st_step = st.assume(z3.Not(is_base)).assume(ih)
+        ob = self.oblige("lemma-step", "ensures", st_step, ens, lem.node.lineno)
+        ob.inputs = inputs
